@@ -3,6 +3,7 @@ pub mod c08;
 pub mod c09;
 pub mod c11;
 pub mod c12;
+pub mod c13;
 pub mod c14;
 pub mod c15;
 pub mod c16;
@@ -34,6 +35,7 @@ registry! {
     "C09" => c09,
     "C11" => c11,
     "C12" => c12,
+    "C13" => c13,
     "C14" => c14,
     "C15" => c15,
     "C16" => c16,
